@@ -1968,7 +1968,19 @@ class ReaderExtractor:
             st["headers"].setdefault(hv, None)
             node = RNode("optset", loop=True, line=s.lineno, func=fi.qualname)
             target.append(node)
-            for b in s.body:
+            body = list(s.body)
+
+            def plain_tail(b) -> bool:
+                return isinstance(b, (ast.Continue, ast.Pass)) or (isinstance(b, ast.Expr) and isinstance(b.value, ast.Call) and isinstance(b.value.func, ast.Attribute) and b.value.func.attr == "skip_value")
+            for i, b in enumerate(body):
+                # `if T: <...>; continue` followed by more than the usual skip: the rest of the body is the else-branch of T
+                if isinstance(b, ast.If) and not b.orelse and b.body and isinstance(b.body[-1], ast.Continue) and body[i + 1:] and not all(plain_tail(x) for x in body[i + 1:]) \
+                        and not any(isinstance(x, ast.Continue) for y in b.body[:-1] for x in ast.walk(y)):
+                    nb = ast.If(test=b.test, body=b.body[:-1] or [ast.copy_location(ast.Pass(), b)], orelse=body[i + 1:])
+                    ast.copy_location(nb, b)
+                    body = body[:i] + [nb]
+                    break
+            for b in body:
                 if b is peeks[0]:
                     continue
                 if isinstance(b, ast.If):
